@@ -25,7 +25,7 @@ fn inputs(tier: Tier) -> Vec<(String, Vec<u8>)> {
     let mut v: Vec<(String, Vec<u8>)> = vec![];
     // (i) all strings of length <=3 over a 6-letter alphabet, all of length <=8 over {00,FF}
     let a6 = [0x00u8, 0x01, 0x7F, 0x80, 0x81, 0xFF];
-    for l in 0..=tier.pick(3u32, 5) {
+    for l in 0..=tier.pick(4u32, 6) {
         for x in 0..6u64.pow(l) {
             let mut y = x;
             let mut s = vec![];
@@ -36,16 +36,16 @@ fn inputs(tier: Tier) -> Vec<(String, Vec<u8>)> {
             v.push((format!("all6^{l}#{x}"), s));
         }
     }
-    for l in 4..=tier.pick(8u32, 14) {
+    for l in 4..=tier.pick(12u32, 16) {
         for x in 0..2u64.pow(l) {
             let s: Vec<u8> = (0..l).map(|b| if (x >> b) & 1 == 1 { 0xFF } else { 0x00 }).collect();
             v.push((format!("all2^{l}#{x}"), s));
         }
     }
-    if tier == Tier::Thorough {
-        // all strings of length 6..9 over {00, 41, FF}
+    {
+        // all strings of length 6..8 (thorough ..10) over {00, 41, FF}
         let a3 = [0x00u8, 0x41, 0xFF];
-        for l in 6..=9u32 {
+        for l in 6..=tier.pick(8u32, 10) {
             for x in 0..3u64.pow(l) {
                 let mut y = x;
                 let s: Vec<u8> = (0..l)
@@ -61,9 +61,9 @@ fn inputs(tier: Tier) -> Vec<(String, Vec<u8>)> {
     }
     // (ii) run-length families around the RLE/sparse boundaries
     let ns: Vec<usize> = if tier == Tier::Quick {
-        (0..=5).chain(126..=131).chain(254..=258).collect()
-    } else {
         (0..=8).chain(62..=66).chain(126..=135).chain(254..=264).chain(510..=514).chain(1022..=1026).chain(4094..=4098).collect()
+    } else {
+        (0..=10).chain(30..=34).chain(62..=66).chain(126..=135).chain(254..=264).chain(382..=392).chain(510..=514).chain(1022..=1026).chain(2046..=2050).chain(4094..=4098).chain(8190..=8194).collect()
     };
     for &n in &ns {
         for (a, b) in [(0x00u8, 0x41u8), (0x41, 0x00), (0xFF, 0x80)] {
@@ -90,16 +90,16 @@ fn inputs(tier: Tier) -> Vec<(String, Vec<u8>)> {
             v.push((format!("breakeven total={total} random_prefix={k}"), d));
         }
     }
-    if tier == Tier::Thorough {
+    {
         // more totals (up to the default sector size), and compressible tails other than zeros
-        for total in [33usize, 64, 100, 200, 256, 1000, 1024, 4096] {
+        for total in tier.pick(vec![33usize, 64, 100, 200, 256, 1000, 1024, 4096], vec![33usize, 64, 100, 200, 256, 1000, 1024, 2048, 4096, 8192, 16384]) {
             for k in 0..=total {
                 let mut d = gen::content("incompressible", k, 4096, 12);
                 d.resize(total, 0);
                 v.push((format!("breakeven total={total} random_prefix={k}"), d));
             }
         }
-        for total in [86usize, 128, 300, 512, 1024] {
+        for total in tier.pick(vec![86usize, 128, 300, 512, 1024], vec![86usize, 128, 300, 512, 1024, 4096]) {
             for tail in ["period2", "sparse", "period251"] {
                 for k in 0..=total {
                     let mut d = gen::content("incompressible", k, 4096, 13);
@@ -112,9 +112,9 @@ fn inputs(tier: Tier) -> Vec<(String, Vec<u8>)> {
     }
     // (iii) size ladder x texture
     // thorough: every length up to 1100 (not only the powers of two), then the power ladder to 2^23
-    let mut ladder: Vec<usize> = (0..=tier.pick(17, 1100)).collect();
-    let kmax = tier.pick(17, 23);
-    for k in tier.pick(5, 11)..=kmax {
+    let mut ladder: Vec<usize> = (0..=tier.pick(1100, 4200)).collect();
+    let kmax = tier.pick(19, 23);
+    for k in tier.pick(11, 13)..=kmax {
         ladder.extend([(1usize << k) - 1, 1 << k, (1 << k) + 1]);
     }
     for &l in &ladder {
@@ -123,6 +123,26 @@ fn inputs(tier: Tier) -> Vec<(String, Vec<u8>)> {
         }
     }
     v
+}
+
+/// inputs for the all-256-method-bytes space: short strings, the run families at the codec boundaries, one
+/// break-even sweep and the size ladder (thorough: the whole quick input set)
+fn allsel_inputs(tier: Tier) -> Vec<(String, Vec<u8>)> {
+    let all = inputs(Tier::Quick);
+    if tier == Tier::Thorough {
+        return all;
+    }
+    all.into_iter()
+        .filter(|(n, d)| {
+            (n.starts_with("all6^") && d.len() <= 3)
+                || (n.starts_with("all2^") && d.len() <= 8)
+                || (n.starts_with("a^") && !n.contains("b^"))
+                || (n.contains("b^") && d.len() <= 600 && d.len() % 3 != 1)
+                || n.starts_with("breakeven total=86 ") && !n.contains("tail=")
+                || n.starts_with("breakeven total=300 ") && !n.contains("tail=")
+                || (n.starts_with("ladder") && (d.len() <= 40 || d.len().count_ones() <= 2 || (d.len() + 1).count_ones() <= 1))
+        })
+        .collect()
 }
 
 struct Main {
@@ -358,7 +378,7 @@ fn build(name: &str, _arg: &str, tier: Tier) -> Box<dyn Space> {
     match name {
         "adpcm_steps" => Box::new(AdpcmSteps::new(tier)),
         "main" => Box::new(Main { inputs: inputs(tier), sels: named_sels() }),
-        "allsel" => Box::new(Main { inputs: inputs(Tier::Quick), sels: all_sels() }),
+        "allsel" => Box::new(Main { inputs: allsel_inputs(tier), sels: all_sels() }),
         "adpcm" => Box::new(Adpcm),
         _ => panic!("space {name}"),
     }
@@ -366,15 +386,13 @@ fn build(name: &str, _arg: &str, tier: Tier) -> Box<dyn Space> {
 
 fn main() {
     let Mode::Supervisor(mut c) = start("C03", "exploration", build) else { return };
-    c.rule = "selectors x inputs; inputs = all strings of length <=3 over {00,01,7F,80,81,FF}, all of length 4..8 over {00,FF}, run families a^n, a^n b, (ab)^n, a^n b^m for n,m in {0..5,126..131,254..258} x 3 letter pairs, size ladder {0..17, 2^k-1,2^k,2^k+1 for k=5..K} x 5 textures (K=17 quick; thorough: all6 to length 5, {00,FF} to length 14, all strings of length 6..9 over {00,41,FF}, run counts {0..8,62..66,126..135,254..264,510..514,1022..1026,4094..4098}, break-even sweeps (every split k of a k-byte incompressible prefix + compressible tail) for totals {33,64,86,100,128,200,256,300,512,1000,1024,4096} with zero tails and {86,128,300,512,1024} with period2/sparse/period251 tails, EVERY length 0..1100 x 5 textures, K=23); thorough also runs space `allsel`: every one of the 256 method bytes x the quick input set (a selector the compressor accepts must invert; selectors with an ADPCM bit are judged for length only). Non-trivial = non-empty input accepted by the compressor; distinct by (selector,input).".into();
+    c.rule = "selectors x inputs. quick inputs = all strings of length <=4 over {00,01,7F,80,81,FF}, all of length 4..12 over {00,FF}, all of length 6..8 over {00,41,FF}, run families a^n, a^n b, (ab)^n, a^n b^m for n,m in {0..8,62..66,126..135,254..264,510..514,1022..1026,4094..4098} x 3 letter pairs, break-even sweeps (every split k of a k-byte incompressible prefix + compressible tail) for totals {33,64,86,100,128,200,256,300,512,1000,1024,4096} with zero tails and {86,128,300,512,1024} with period2/sparse/period251 tails, EVERY length 0..1100 x 5 textures and the ladder 2^k-1,2^k,2^k+1 for k=11..19. thorough: all6 to length 6, {00,FF} to length 16, {00,41,FF} to length 10, run counts also {9,10,30..34,382..392,2046..2050,8190..8194}, sweep totals also {2048,8192,16384} (zero tails) and 4096 (other tails), EVERY length 0..4200, ladder k=13..23. Space `allsel`: every one of the 256 method bytes x (quick: short strings, single-run families, short two-run families, two sweeps, ladder subset; thorough: the whole quick input set) - a selector the compressor accepts must invert; selectors with an ADPCM bit are judged for length only. Non-trivial = non-empty input accepted by the compressor; distinct by (selector,input).".into();
     c.assume("a compressor refusing a selector/input with Err is a legitimate refusal (counted)");
     c.assume("lossy ADPCM selectors: only length and channel sides are judged; space adpcm_steps: every pair of per-channel step signals (6 level pairs x step frames) as stereo, and each alone as mono: 90+ frames after the last step every channel must be within 1/8 of full scale of its own level");
     c.run_space("main", "");
     c.run_space("adpcm", "");
     c.run_space("adpcm_steps", "");
-    if c.tier == Tier::Thorough {
-        c.run_space("allsel", "");
-    }
+    c.run_space("allsel", "");
     c.extra_cov.insert("selectors".into(), json!(SEL.iter().map(|s| s.0).collect::<Vec<_>>()));
     c.finish();
 }
